@@ -248,7 +248,8 @@ def r4(prog, rep):
         if isinstance(s, ast.Assign) and isinstance(s.targets[0], ast.Attribute) and is_self_attr(s.targets[0].value, "dx"):
             loc = s.targets[0].attr
             n += 1
-            ok, detail = slices.is_face_difference(mm, s.value, "psi_vals")
+            from ..model import inline_temporaries
+            ok, detail = slices.is_face_difference(mm, inline_temporaries(g1.node, s.value), "psi_vals")
             rep.ob("R4", "dx.%s == psi_vals at the cell's upper x-face minus lower x-face" % loc, ok, g1.site(s), detail, key="dx/" + loc)
     rep.floor("R4.dx", n, 2)
 
